@@ -22,6 +22,7 @@ from math import prod
 from typing import cast, TYPE_CHECKING
 
 import numpy as np
+import sympy
 
 from cirq import circuits, ops, protocols
 from cirq.study.resolver import ParamResolver
@@ -37,8 +38,6 @@ from cirq.transformers import (
 from cirq.transformers.analytical_decompositions import single_qubit_decompositions
 
 if TYPE_CHECKING:
-    import sympy
-
     import cirq
 
 
@@ -294,9 +293,28 @@ def merge_single_qubit_gates_to_phxz_symbolized(
         ]
     )
     # Remaining symbols, e.g., 2 qubit gates' symbols. Sweep of those symbols keeps unchanged.
-    remaining_symbols: set[sympy.Symbol] = set(
-        protocols.parameter_symbols(circuit) - single_qubit_gate_symbols
+    remaining_symbols: set[sympy.Symbol] = set().union(
+        *[
+            protocols.parameter_symbols(op) if symbolized_single_tag not in op.tags else set()
+            for op in circuit_tagged.all_operations()
+        ]
     )
+    # A symbol may appear both in single qubit gates and in other operations. Only the single
+    # qubit gates are resolved below, so such symbols are renamed in the other operations first.
+    shared_symbols = {
+        s: sympy.Symbol(f'_tmp_shared_{s.name}')
+        for s in remaining_symbols & single_qubit_gate_symbols
+    }
+    if shared_symbols:
+        circuit_tagged = transformer_primitives.map_operations(
+            circuit_tagged,
+            lambda op, _: (
+                op
+                if symbolized_single_tag in op.tags
+                else protocols.resolve_parameters(op, shared_symbols, recursive=False)
+            ),
+            deep=deep,
+        )
     # If all single qubit gates are not parameterized, call the non-parameterized version of
     # the transformer.
     if not single_qubit_gate_symbols:
@@ -338,6 +356,11 @@ def merge_single_qubit_gates_to_phxz_symbolized(
         ),
         remove_if=lambda tag: str(tag).startswith(symbolized_single_tag),
     )
+
+    if shared_symbols:
+        new_circuit = protocols.resolve_parameters(
+            new_circuit, {v: k for k, v in shared_symbols.items()}, recursive=False
+        )
 
     # Step 3, get N sets of parameterizations as new_sweep.
     if remaining_symbols:
